@@ -862,6 +862,9 @@ class _Gen:
             other = self.epath("string", lv) if rng.random() < 0.3 else '"%s"' % rng.choice(
                 [s for s in STRINGS if '"' not in s])
             sides = [spath, other]
+            if k == "cmpstr" and rng.random() < 0.25:
+                # two string literals (the text of the comparison starts and ends with a quote)
+                sides = ['"%s"' % rng.choice([s for s in STRINGS if '"' not in s]), other if not isinstance(other, list) else '"x"']
             for n in (0, 1):
                 if rng.random() < 0.35:
                     sides[n] = self.paren(sides[n])  # parentheses keep the type, also of a string
@@ -905,6 +908,8 @@ class _Gen:
 
     # -- statements ---------------------------------------------------------------------------------
     def loop_var(self, lv):
+        if lv and self.rng.random() < 0.15:
+            return lv[-1]  # legal shadowing: the counting variable of the enclosing loop again
         pool = [v for v in LOOP_VARS if v not in lv]
         return self.rng.choice(pool[:4] if self.rng.random() < 0.7 else pool)
 
